@@ -95,7 +95,7 @@ type Sched struct {
 	timers []*VTimer
 
 	afterFuncs []*afterFunc
-	closed     map[uintptr]bool
+	closed     map[uintptr]any // closed channels by address; the value keeps the channel alive so the address is not reused
 	objIDs     map[any]int
 
 	// per-execution scratch for harnesses
